@@ -17,6 +17,7 @@ class Ctx:
         self._memo = {}
         with open(os.path.join(self.dir, "meta.json")) as fh:
             self.meta = json.load(fh)
+        self.meta["repo"] = facts.REPO           # a cache hit may have been extracted from another copy of the same tree
 
     def crate(self, name):
         if name not in self._crates:
